@@ -26,6 +26,10 @@ for p in sorted(props.REGISTRY):
         # call ...); the pattern may legitimately disappear, so these rules carry no floor
         if r in ('R-WORK.W7', 'R-WORK.W6', 'R-INJ.index', 'R-INJ.memo', 'R-INJ.key', 'R-INJ.word'):
             continue
+        # closure-wide pattern rules: they are applied to whatever the call-graph closure of the property's operations
+        # contains, so their instance count follows the shape of the call graph, not an anchor of the property
+        if r.startswith(('R-INJ', 'R-SORT', 'R-EPS.const', 'R-EPS.default', 'R-EPS.word', 'R-WORK.recmemo')):
+            continue
         # half of what was confirmed on the triaged tree: instances are counted per occurrence (per read of G.R, per
         # call site ...), and behaviour-preserving refactorings (a local alias, a helper) were seen to remove up to
         # half of the occurrences of a rule (round s); the floor is there to catch a rule going vacuous, not to pin
